@@ -69,6 +69,8 @@ def design_jobs(rep):
         solver=('Solver', _cfg('Solver.cfg', **draw), dict(coverage=True)),
         solver_deep=('Solver', _cfg('Solver_deep.cfg', **deep), dict(coverage=True)),
         step=('StepRetry', _cfg('StepRetry.cfg', **retry), dict(coverage=True)),
+        # design mutant: _solver trusts the named 'direct' solver and skips the a-posteriori residual check for it
+        lin_mutant=('LinSolve', _cfg('LinSolve_mutant.cfg', Kinds='{"solve"}'), {}),
     )
     if thorough:
         # the as-written variants with the property demanded of them: TLC must produce the counterexamples itself
@@ -92,7 +94,7 @@ def design_check(rep, results):
     for name, res in results.items():
         rep.add_tlc(res, exhaustive=True)
         if name.endswith('_mutant'):
-            if res.violated not in ('CertifiedAsWritten', 'NoSilentAsWritten', 'AdvanceAsWritten'):
+            if res.violated not in ('CertifiedAsWritten', 'NoSilentAsWritten', 'AdvanceAsWritten') + (('Certified',) if name == 'lin_mutant' else ()):
                 raise RuntimeError('vacuity: the as-written model {} does not violate the property invariants (got {})'.format(name, res.violated))
         elif res.violated:
             raise RuntimeError('design spec {} violates {}:\n{}'.format(name, res.violated, '\n'.join(res.error_trace[-40:])))
